@@ -54,6 +54,7 @@ type Domain struct {
 
 // Engine holds the per-program state.
 type Engine struct {
+	lenEq map[[2]*ssa.Parameter]bool
 	Sx     *symx.Ctx
 	CG     *callgraph.Graph
 	IsRepo func(*ssa.Function) bool
@@ -217,6 +218,13 @@ func (c *Fn) LenExprs(x ssa.Value, d int) []string {
 		out = append(out, c.LenExprs(v.X, d+1)...)
 	case *ssa.Call:
 		out = append(out, c.builtLen(v)...)
+	case *ssa.Parameter:
+		// another slice parameter that every caller passes with the same length
+		for _, q := range c.fn.Params {
+			if q != v && (isSlice(q.Type()) || isString(q.Type())) && c.E.paramLensEqual(c.fn, v, q) {
+				out = append(out, "len("+c.F.E(q)+")")
+			}
+		}
 	case *ssa.Phi:
 		var common map[string]bool
 		for _, e := range v.Edges {
@@ -1466,4 +1474,47 @@ func (c *Fn) sortCallback(x, i ssa.Value) (bool, string) {
 		return true, "index parameter of the less function of sort.Slice over the same slice variable"
 	}
 	return false, ""
+}
+
+func isString(t types.Type) bool {
+	b, ok := t.Underlying().(*types.Basic)
+	return ok && b.Info()&types.IsString != 0
+}
+
+// paramLensEqual: at every call site of fn (all known, all in scope) the
+// arguments for p and q have the same length: a dominating test established
+// len(arg p) == len(arg q).
+func (e *Engine) paramLensEqual(fn *ssa.Function, p, q *ssa.Parameter) bool {
+	key := [2]*ssa.Parameter{p, q}
+	if v, ok := e.lenEq[key]; ok {
+		return v
+	}
+	if e.lenEq == nil {
+		e.lenEq = map[[2]*ssa.Parameter]bool{}
+	}
+	e.lenEq[key] = false // recursion guard
+	sites, open := e.callers(fn)
+	if open || len(sites) == 0 {
+		return false
+	}
+	for _, s := range sites {
+		cc := e.Of(s.Caller.Func)
+		a, b := argFor(s.Site, fn, p), argFor(s.Site, fn, q)
+		if a == nil || b == nil {
+			return false
+		}
+		ok := false
+		for _, la := range cc.LenExprs(a, 0) {
+			for _, lb := range cc.LenExprs(b, 0) {
+				if la == lb || (cc.holds(la, lb, false, s.Site.Block()) && cc.holds(lb, la, false, s.Site.Block())) {
+					ok = true
+				}
+			}
+		}
+		if !ok {
+			return false
+		}
+	}
+	e.lenEq[key] = true
+	return true
 }
